@@ -595,6 +595,11 @@ func TestC07(t *testing.T) {
 							r.Report("cells", cell, key+" foreign-wrong-type", fmt.Sprintf("%s: a name outside the vocabulary produced %T", cell, it), cell)
 						}
 					}
+					// "an error or nothing": a decoder that hands back a value for such a document hands back the document (the untyped
+					// fallback carries the id that was written); a value that is there but says nothing is neither
+					if err == nil && nc.name != "" && strings.HasPrefix(entry, "json-") && !ap.IsNil(it) && string(it.GetLink()) != c07Doc(nc.name, nc.ti, nc.known)["id"] {
+						r.Report("cells", cell, key+" foreign-hollow-value", fmt.Sprintf("%s: a name outside the vocabulary produced %T %s, which is not nothing and does not carry the id that was written", cell, it, vocab.Dump(it)), cell)
+					}
 				} else if entry != "registry" && entry != "json-list" && entry != "json-list-after-unknown" && entry != "json-list-after-untyped" && entry != "json-list-bare" && entry != "json-item" && entry != "json-top" {
 					_ = it
 				} else if err != nil || vocab.GoTypeName(it) != "Place" {
